@@ -31,7 +31,8 @@ def _job(job):
         finally:
             shutil.rmtree(d, ignore_errors=True)
         return ev
-    ev, _ = pipeline.run_compute(job["spec"], job["seed"], job.get("scheduler", "sync"), job.get("write", True), job.get("fault"))
+    ev, _ = pipeline.run_compute(job["spec"], job["seed"], job.get("scheduler", "sync"), job.get("write", True), job.get("fault"),
+                                 out_name=job.get("out_name", "out.fits"))
     return ev
 
 
@@ -75,6 +76,11 @@ def run(tier="quick", seed=0):
         jobs.append({"kind": "clean", "spec": _spec_of(mode, False, True, thrown), "seed": seed + 4})
         jobs.append({"kind": "raise-nowrite", "spec": _spec_of(mode, True, True, thrown), "seed": seed + 5, "write": False,
                      "fault": ("boundary", 6, "raise")})
+    # the staged file is a FITS table whatever the output file is called
+    for nm in ("run.ecsv", "run_output", "results.dat", "table.FITS"):
+        jobs.append({"kind": "clean-name", "spec": _spec_of("Diffuse", True, True, thrown), "seed": seed + 6, "out_name": nm})
+    jobs.append({"kind": "raise-name", "spec": _spec_of("Target", True, True, thrown), "seed": seed + 6, "out_name": "run.ecsv",
+                 "fault": ("boundary", 9, "raise")})
     # a run in which no trajectory survives (early return) with write_stages
     jobs.append({"kind": "clean", "spec": {"mode": "Target", "thrown": 20, "obst": 600.0, "ra": 0.0, "dec": 1.5}, "seed": seed})
     traces = par.pmap(_job, jobs, workers=14)
